@@ -286,9 +286,12 @@ func (c *Cluster) handleFetch(creq *clientReq, w *watchFetch) (kmsg.Response, er
 	}()
 
 	var batchesAdded int
+	var full bool
 	nbytes = 0
-full:
 	for _, fp := range toFetch {
+		if full {
+			break
+		}
 		if !c.allowedACL(creq, fp.topic, kmsg.ACLResourceTypeTopic, kmsg.ACLOperationRead) {
 			donep(fp.topic, fp.topicID, fp.partition, kerr.TopicAuthorizationFailed.Code)
 			continue
@@ -349,7 +352,11 @@ full:
 					break segments
 				}
 				if nbytes += int(m.nbytes); nbytes > int(req.MaxBytes) && batchesAdded > 0 {
-					break full
+					// The response is full. Finish this partition
+					// (its aborted transactions below) before
+					// stopping: it may already hold batches.
+					full = true
+					break segments
 				}
 				if pbytes += int(m.nbytes); pbytes > int(fp.maxBytes) && batchesAdded > 0 {
 					break segments
